@@ -188,10 +188,21 @@ def run(shard, ctx):
             nc, m = NoteContainer(), SetModel()
             hist = []
             for step in range(rng.randint(1, 40)):
-                op = rng.randrange(12)
+                op = rng.randrange(12) if rng.random() < 0.93 else rng.choice([12, 13])
                 n = rng.choice(NAMES16)
                 o = rng.choice([0, 1, 2, 3, 4, 5, 6, 3, 4, 5])
-                if op == 0:
+                if op == 12:
+                    # the container is emptied and used again
+                    f = lambda: nc.empty(); m.m = []; hist.append(("empty",))
+                elif op == 13:
+                    # a shorthand constructor on a container that already holds notes (it starts over)
+                    sh = rng.choice(["C", "E", "G", "Bb", "F#"]) + rng.choice(["", "m7", "7", "dim7", "M7", "sus4", "6"])
+                    names_ = chords.from_shorthand(sh)
+                    m.m = []
+                    [m.add(x) for x in names_]
+                    f = lambda: nc.from_chord_shorthand(sh)
+                    hist.append(("from_chord_shorthand on the used container", sh))
+                elif op == 0:
                     f = lambda: nc.add_note(n); m.add(n); hist.append(("add", n))
                 elif op == 1:
                     f = lambda: nc.add_note(n, o); m.add(n, o); hist.append(("add", n, o))
